@@ -245,7 +245,20 @@ type WriteOpts struct {
 	IntVia    int  // 0 auto (WriteInt if it fits, else WriteBigInt), 1 WriteBigInt always, 2 WriteUint when non-negative and fits
 	SymViaStr bool // WriteSymbolFromString instead of WriteSymbol for symbols with text
 	AnnotBulk bool // Annotations(...) instead of repeated Annotation
+	// ForeignSID, when > 0, is attached as LocalSID to every token that has text: a token that
+	// came from some other symbol table. The text is what identifies the symbol.
+	ForeignSID int64
+	// FinishEach calls Finish after every top-level value (the writer is reused for the next batch).
+	FinishEach bool
 	OnCall    func(name string, err error)
+}
+
+func (o *WriteOpts) tok(s rm.Sym) ion.SymbolToken {
+	t := Token(s)
+	if o != nil && o.ForeignSID > 0 && t.Text != nil {
+		t.LocalSID = o.ForeignSID
+	}
+	return t
 }
 
 func (o *WriteOpts) note(name string, err error) error {
@@ -262,7 +275,7 @@ func WriteValue(w ion.Writer, v *rm.Value, o *WriteOpts) error {
 		o = &WriteOpts{}
 	}
 	if v.Field != nil {
-		if err := o.note("FieldName", w.FieldName(Token(*v.Field))); err != nil {
+		if err := o.note("FieldName", w.FieldName(o.tok(*v.Field))); err != nil {
 			return err
 		}
 	}
@@ -270,14 +283,14 @@ func WriteValue(w ion.Writer, v *rm.Value, o *WriteOpts) error {
 		if o.AnnotBulk {
 			toks := make([]ion.SymbolToken, len(v.Annots))
 			for i, a := range v.Annots {
-				toks[i] = Token(a)
+				toks[i] = o.tok(a)
 			}
 			if err := o.note("Annotations", w.Annotations(toks...)); err != nil {
 				return err
 			}
 		} else {
 			for _, a := range v.Annots {
-				if err := o.note("Annotation", w.Annotation(Token(a))); err != nil {
+				if err := o.note("Annotation", w.Annotation(o.tok(a))); err != nil {
 					return err
 				}
 			}
@@ -310,7 +323,7 @@ func WriteValue(w ion.Writer, v *rm.Value, o *WriteOpts) error {
 		if o.SymViaStr && v.Sym.HasText {
 			return o.note("WriteSymbolFromString", w.WriteSymbolFromString(v.Sym.Text))
 		}
-		return o.note("WriteSymbol", w.WriteSymbol(Token(v.Sym)))
+		return o.note("WriteSymbol", w.WriteSymbol(o.tok(v.Sym)))
 	case rm.String:
 		return o.note("WriteString", w.WriteString(v.Text))
 	case rm.Clob:
@@ -348,13 +361,18 @@ func WriteValue(w ion.Writer, v *rm.Value, o *WriteOpts) error {
 
 // WriteStream writes all values then Finish.
 func WriteStream(w ion.Writer, vals []*rm.Value, o *WriteOpts) error {
-	for _, v := range vals {
+	if o == nil {
+		o = &WriteOpts{}
+	}
+	for i, v := range vals {
 		if err := WriteValue(w, v, o); err != nil {
 			return err
 		}
-	}
-	if o == nil {
-		o = &WriteOpts{}
+		if o.FinishEach && i < len(vals)-1 {
+			if err := o.note("Finish", w.Finish()); err != nil {
+				return err
+			}
+		}
 	}
 	return o.note("Finish", w.Finish())
 }
